@@ -190,9 +190,9 @@ class OptimizationAbstract(ABC, Generic[T]):
             return groups
 
         # calculate the group composed by the residual agents
-        residual = self._config.population_size % n_groups
-        if residual != 0:
-            groups.append([agent.model_copy() for agent in self._population[-residual:]])
+        residual = self._population[n_groups * n_agents:]
+        if len(residual) != 0:
+            groups.append([agent.model_copy() for agent in residual])
         return groups
 
     def optimize(self, task: Task, mode: str | None = None, workers: int | None = None) -> OptimizationResult:
